@@ -21,7 +21,11 @@ EXPLANATION = (
     "create_single_triplet catches ValueError around apply and rebuilds the successor from the pre-state's facts and fluents; the "
     "triplet is wired (pre-state parameter, operator, successor). C04.flag: the allow flag handed to apply derives from the "
     "exporter's constructor argument whose default is False. C04.call: the plan line is lower-cased and split on parentheses / "
-    "whitespace; name = first token, arguments = the rest in order."
+    "whitespace; name = first token, arguments = the rest in order. C04.except also demands that the successor named in the triplet is bound "
+    "on the path through the handler (by the handler or before the try). C04.step.everyeffect: no turn of a loop of Operator.apply that leads "
+    "to an effect application can end the walk (guard reachability of one turn: break / return). C04.step.grounded: the field the stored "
+    "effect groups are read from is filled in only by the grounding method (the constructor leaves it empty); under 'not grounded' and every "
+    "valuation of (skip_validation, applicable, allow) the read is reached only through a call that fills it in on all its paths."
 )
 UNDECIDED = "per-step conformance of the successor (that is C03); behaviour for plan lines that are not a single (name args...) form"
 
@@ -339,6 +343,30 @@ def rule_except(repo: Repo) -> RuleResult:
             r.fail(Finding("C04.except", f, "handler-state", "after a refused action the successor is not rebuilt from the pre-state's facts and fluents", node=handler_state))
     # triplet wiring
     trip = [c for c in L.calls_in(f.node) if callee_name(c) == "TrajectoryTriplet"]
+    # on the path through the handler the successor that the triplet names is bound: by the handler itself or before the `try` (the
+    # assignment whose right-hand side raised did not happen)
+    g = C.cfg_of(f.node)
+    ti_ = repo.find_method("TrajectoryTriplet", "__init__")
+    for t in tries:
+        if not any(a is x for s_ in t.body for x in ast.walk(s_)):
+            continue
+        for h in t.handlers:
+            hn = g.node_of(h)
+            if hn is None:
+                continue
+            for c in trip:
+                succ = L.arg_of(c, ti_, "next_state")
+                tn = g.node_containing(c)
+                if succ is None or tn is None:
+                    continue
+                for nm in sorted({x.id for x in ast.walk(succ) if isinstance(x, ast.Name) and isinstance(x.ctx, ast.Load)}):
+                    defs = {n for n in g.nodes() if g.stmt[n] is not None and nm in C.defs_of(g.stmt[n])}
+                    if not defs or nm in f.params:
+                        continue            # not a local of this function
+                    if tn in C.reachable_from(g, hn, avoid=defs) and not p.rd.defs_reaching(hn, nm):
+                        r.site(L.site(f, h, "successor after a refusal"))
+                        r.fail(Finding("C04.except", f, "handler-successor-unbound", "after a refused action the handler leaves the successor unbound: building the triplet "
+                                       "raises UnboundLocalError, an invalid step aborts the export instead of leaving the state unchanged", node=h))
     r.site(f.qn + " [triplet]")
     okt = False
     for c in trip:
@@ -420,6 +448,198 @@ def rule_call(repo: Repo) -> RuleResult:
     return r
 
 
+# --- 'every post-state is the successor of its pre-state under that step's action': completeness of the effect walk ------------------
+
+APPLY = "Operator.apply"
+GROUNDED_FLAG = "grounded"      # reason: public attribute of Operator ("grounded: bool") that says whether the grounded_* fields are filled in;
+                                # used only when the flag cannot be read off the grounding method (the attribute it sets to True)
+
+
+def _effect_applications(repo: Repo, f: FuncInfo) -> List[ast.Call]:
+    """calls X.apply(...) that resolve to GroundedEffect.apply"""
+    out = []
+    for c in L.calls_in(f.node):
+        if isinstance(c.func, ast.Attribute) and c.func.attr == "apply":
+            _cat, tg = repo.resolve_call(f, c)
+            if any(t is not None and t.cls == "GroundedEffect" for _k, t, _c in tg):
+                out.append(c)
+    return out
+
+
+def _application_kind(p, a: ast.Call) -> str:
+    """'universal' when the applied effect object is built inside apply (the forall pass), else 'group' (a stored grounded effect)"""
+    return "universal" if any(x[0].startswith("fresh:") for x in p.trace(a.func.value)) else "group"
+
+
+def rule_everyeffect(repo: Repo, rid: str = "C04.step.everyeffect") -> RuleResult:
+    """the successor is the result of ALL effects of the action whose antecedents hold: no turn of a loop that leads to an effect
+    application may end the walk (an effect whose antecedent is false is skipped, the ones after it are still applied)"""
+    r = RuleResult(rid, "Operator.apply visits every effect group / object / universal effect: no turn of the walk ends it early",
+                   "every post-state is the successor of its pre-state under that step's action")
+    f = L.fn(repo, APPLY)
+    p = L.prov(repo, f)
+    G = L.Guards(f, _apply_matcher_for(p))
+    pm = L.parents_of(f)
+    applies = _effect_applications(repo, f)
+    if not applies:
+        raise AnalysisError(f"{APPLY}: no call of GroundedEffect.apply found")
+    done = set()
+    for a in applies:
+        kind = _application_kind(p, a)
+        loops, cur = [], a
+        while cur in pm:
+            cur = pm[cur]
+            if isinstance(cur, (ast.For, ast.While)):
+                loops.append(cur)
+        if not loops:
+            r.site(L.site(f, a, f"{kind} effect application (no statement loop)"))
+            r.ok({"application": kind, "walk": "not a statement loop"})
+            continue
+        for lp in loops:
+            if id(lp) in done:
+                continue
+            done.add(id(lp))
+            r.site(L.site(f, lp, f"walk leading to a {kind} effect application"))
+            if L.leaves_loop_early(G, {}, lp):
+                r.fail(Finding(rid, f, f"effect-walk-left-early:{kind}", f"one turn of the loop over {unparse(lp.iter, 40) if isinstance(lp, ast.For) else 'the effects'} can end the "
+                               f"walk (break / return): the remaining effects are not applied, the post-state is not the successor", node=lp))
+            else:
+                r.ok({"application": kind, "walk": "never left early"})
+    r.require_sites(2)
+    return r
+
+
+def _grounding_facts(repo: Repo, cls: str, fields: Set[str], depth: int = 3):
+    """which methods of the class fill in the given fields on every normal path (-> set of method names), and the boolean attributes
+    such a method sets to True (-> the 'is grounded' flags)"""
+    memo, flags = {}, set()
+    use_flags = []
+
+    def fills(st: ast.AST, self_name: str) -> bool:
+        if isinstance(st, (ast.Assign, ast.AnnAssign)) and st.value is not None:
+            tg = st.targets if isinstance(st, ast.Assign) else [st.target]
+            if any(isinstance(t, ast.Attribute) and isinstance(t.value, ast.Name) and t.value.id == self_name and t.attr in fields for t in tg):
+                v = st.value
+                empty = (isinstance(v, (ast.List, ast.Set, ast.Tuple)) and not v.elts) or (isinstance(v, ast.Dict) and not v.keys) or \
+                    (isinstance(v, ast.Call) and isinstance(v.func, ast.Name) and v.func.id in ("set", "list", "dict", "tuple", "frozenset") and not v.args and not v.keywords) or \
+                    (isinstance(v, ast.Constant) and v.value is None)
+                return not empty
+        return False
+
+    def establishes(name: str, d: int) -> bool:
+        if name in memo:
+            return memo[name]
+        memo[name] = False
+        m = repo.func_opt(f"{cls}.{name}")
+        if m is None or d < 0:
+            return False
+        try:
+            fm = L.fn(repo, f"{cls}.{name}")
+        except Exception:
+            return False
+        g = C.cfg_of(fm.node)
+        est = set()
+        for n in g.nodes():
+            st = g.stmt[n]
+            if st is None:
+                continue
+            if fills(st, fm.self_name or "self"):
+                est.add(n)
+                continue
+            h = C.header(st)
+            for c in L.calls_in(h) if h is not None else ():
+                if isinstance(c.func, ast.Attribute) and isinstance(c.func.value, ast.Name) and c.func.value.id == fm.self_name and c.func.attr != name \
+                        and establishes(c.func.attr, d - 1) and g.kind[n] == "stmt":
+                    est.add(n)
+        if not est:
+            return False
+        if use_flags and flags:
+            # second pass: a method that grounds only `if not self.<flag>` does fill the fields in whenever the operator is not grounded yet
+            def flag_atom(e, _self=fm.self_name):
+                return "grounded" if isinstance(e, ast.Attribute) and isinstance(e.value, ast.Name) and e.value.id == _self and e.attr in flags else None
+            seen = L.Guards(fm, flag_atom).reach({"grounded": False}, avoid=est)
+        else:
+            seen = C.reachable_from(g, g.entry, avoid=est)
+        ok = g.exit not in seen and not any(g.kind[n] == "return" for n in seen)
+        memo[name] = ok
+        if ok:
+            for st in ast.walk(fm.node):
+                if isinstance(st, ast.Assign) and isinstance(st.value, ast.Constant) and st.value.value is True:
+                    flags.update(t.attr for t in st.targets if isinstance(t, ast.Attribute) and isinstance(t.value, ast.Name) and t.value.id == fm.self_name)
+        return ok
+
+    def second_pass():
+        use_flags.append(True)
+        for k in [k for k, v in memo.items() if not v]:
+            del memo[k]
+
+    return establishes, flags, second_pass
+
+
+def rule_grounded(repo: Repo, rid: str = "C04.step.grounded") -> RuleResult:
+    """the effect groups that apply walks over are a field that only the grounding step fills in (the constructor leaves it empty): on every
+    path on which the operator is not known to be grounded, the walk must come after a grounding call -- also when validation is skipped"""
+    r = RuleResult(rid, "Operator.apply grounds the operator before it walks over the grounded effects, on every path (also with skip_validation)",
+                   "every post-state is the successor of its pre-state under that step's action")
+    f = L.fn(repo, APPLY)
+    p = L.prov(repo, f)
+    group = [a for a in _effect_applications(repo, f) if _application_kind(p, a) == "group"]
+    if not group:
+        raise AnalysisError(f"{APPLY}: no application of a stored grounded effect found")
+    fields = {x[1][len("attr:"):] for a in group for x in p.trace(a.func.value) if len(x) >= 2 and x[0] == "self" and x[1].startswith("attr:")}
+    r.site(f.qn + " [grounded before the effect walk]")
+    if not fields:
+        r.ok({"effects": "not read from a field of the operator"})
+        return r
+    establishes, flags, second_pass = _grounding_facts(repo, f.cls, fields)
+    if establishes("__init__", 2):
+        r.ok({"effects": "filled in by the constructor"})
+        return r
+    names = {c.func.attr for c in L.calls_in(f.node) if isinstance(c.func, ast.Attribute) and isinstance(c.func.value, ast.Name) and c.func.value.id == f.self_name}
+    grounding = {n for n in names if establishes(n, 3)}
+    second_pass()
+    grounding |= {n for n in names if establishes(n, 3)}
+    flag_names = flags or {GROUNDED_FLAG}
+    base = _apply_matcher_for(p)
+
+    def matcher(e):
+        if isinstance(e, ast.Attribute) and isinstance(e.value, ast.Name) and e.value.id == f.self_name and e.attr in flag_names and isinstance(e.ctx, ast.Load):
+            return "grounded"
+        return base(e)
+
+    G = L.Guards(f, matcher)
+    g = G.g
+
+    def fills_here(st) -> bool:
+        tg = st.targets if isinstance(st, ast.Assign) else [st.target] if isinstance(st, ast.AnnAssign) and st.value is not None else []
+        return any(isinstance(t, ast.Attribute) and isinstance(t.value, ast.Name) and t.value.id == f.self_name and t.attr in fields for t in tg)
+
+    reads = {g.node_containing(n) for n in ast.walk(f.node) if isinstance(n, ast.Attribute) and isinstance(n.ctx, ast.Load) and isinstance(n.value, ast.Name)
+             and n.value.id == f.self_name and n.attr in fields}
+    reads.discard(None)
+    if not reads:
+        raise AnalysisError(f"{APPLY}: the read of {sorted(fields)} is not found")
+    bad = []
+    atoms = [a for a in ("skip", "applicable", "allow") if a in G.atoms_seen]
+    for combo in itertools.product([False, True], repeat=len(atoms)):
+        val = dict(zip(atoms, combo))
+        val["grounded"] = False
+        seen0 = G.reach(val)
+        est = {g.node_containing(c) for c in L.calls_in(f.node) if isinstance(c.func, ast.Attribute) and isinstance(c.func.value, ast.Name)
+               and c.func.value.id == f.self_name and c.func.attr in grounding and G.reaches_expr(val, c, seen=seen0)}
+        est |= {n for n in g.nodes() if g.stmt[n] is not None and isinstance(g.stmt[n], (ast.Assign, ast.AnnAssign)) and fills_here(g.stmt[n])}
+        est.discard(None)
+        seen = G.reach(val, avoid=est)
+        if reads & seen:
+            bad.append({k: v for k, v in val.items() if k != "grounded"})
+    if bad:
+        r.fail(Finding(rid, f, "effect-walk-before-grounding", f"for an operator that is not grounded yet the walk over {sorted(fields)} is reached without a grounding call "
+                       f"(for {bad[:2]}): the constructor leaves that field empty, so no effect is applied and the post-state equals the pre-state"))
+    else:
+        r.ok({"grounding_calls": sorted(grounding), "flag": sorted(flag_names), "fields": sorted(fields)})
+    return r
+
+
 def rules(repo: Repo, tier: str) -> List[RuleResult]:
     from . import c03, c14
     return [rule_thread(repo, "C04.thread", "TrajectoryExporter.parse_plan", "create_single_triplet"),
@@ -429,4 +649,6 @@ def rules(repo: Repo, tier: str) -> List[RuleResult]:
             c03.rule_universal(repo).as_rule("C04.step.universal"), c03.rule_prestate_rhs(repo).as_rule("C04.step.prestate_rhs"),
             # the recorded states stay what they were: the successor is built on a copy that shares no container with the pre-state
             # (an aliased container is rewritten by the NEXT step, retroactively changing the triplets already produced)
-            c14.rule_copy(repo, "C04.copyfresh")]
+            c14.rule_copy(repo, "C04.copyfresh"),
+            # ... and of ALL its effects: the walk over the effects is complete and happens on a grounded operator
+            rule_everyeffect(repo), rule_grounded(repo)]
